@@ -11,6 +11,9 @@ pub fn run(cx: &mut Ctx) {
     if let Some(facts) = units::load_facts(cx, "C08.B1") {
         units::position_comparisons(cx, "C08.B1", &facts);
     }
+    for (label, f) in units::extra_facts(cx, "C08.B1") {
+        units::position_comparisons(cx, &format!("C08.B1@{}", label), &f);
+    }
     token_payloads(cx);
     paren_transparency(cx);
     lr::skip_set(cx, "C08.W1");
